@@ -928,7 +928,26 @@ func racePass(c *vf.Ctx) {
 	}
 	cmd := exec.Command(bin, iters)
 	cmd.Env = append(os.Environ(), "GORACE=halt_on_error=1 exitcode=66")
-	out, err := cmd.CombinedOutput()
+	type res struct {
+		out []byte
+		err error
+	}
+	ch := make(chan res, 1)
+	go func() { o, e := cmd.CombinedOutput(); ch <- res{o, e} }()
+	var out []byte
+	var err error
+	limit := time.Duration(c.Pick(3, 20)) * time.Minute
+	select {
+	case r := <-ch:
+		out, err = r.out, r.err
+	case <-time.After(limit):
+		// free-running goroutines that never finish (a lock that is never released, say): the scheduler part decides
+		// deadlocks; here only the race detector's verdict would have been used
+		cmd.Process.Kill()
+		c.Cap(fmt.Sprintf("free-running race pass did not finish within %v; its verdict is not used", limit))
+		c.Set("race_pass", map[string]any{"completed": false})
+		return
+	}
 	s := string(out)
 	race := strings.Contains(s, "WARNING: DATA RACE") || strings.Contains(s, "concurrent map")
 	c.Check("C17/race-pass/no-data-race", !race, func() string {
@@ -938,7 +957,7 @@ func racePass(c *vf.Ctx) {
 		return "free-running -race pass of the scenario bodies reported: " + s
 	})
 	if err != nil && !race {
-		c.Fatalf("race pass failed to run: %v: %s", err, s)
+		c.Cap("free-running race pass ended abnormally (" + err.Error() + "); its verdict is not used")
 	}
 	c.Set("race_pass", map[string]any{"iterations_per_scenario": iters, "race_reported": race, "note": "auxiliary sampling pass, free-running goroutines on the un-instrumented code"})
 }
